@@ -264,7 +264,9 @@ def canon_sub(t_or_name, env):
         # local name -> its definition
         for d, nm in env.names.items():
             if nm == t_or_name and d in env.defs and d not in env.assigned:
-                return canon(env.defs[d], env)
+                init = env.definition({'dloc': d})
+                if init is not None:
+                    return canon(init, env)
         return t_or_name
     if isinstance(t_or_name, tuple):
         return tuple(canon_sub(x, env) for x in t_or_name)
